@@ -317,7 +317,22 @@ func checkReserveConsume(p *Prog, r *Report, overhead int64) {
 		}
 		return true
 	})
-	if makeSpace == nil || flushBuffer == nil {
+	if fbLit == nil {
+		// the drain may have been written directly into the deferred function
+		ast.Inspect(flush.Body, func(n ast.Node) bool {
+			ds, ok := n.(*ast.DeferStmt)
+			if !ok {
+				return true
+			}
+			if lit, ok := ast.Unparen(ds.Call.Fun).(*ast.FuncLit); ok && lit.Type.Params.NumFields() == 0 {
+				if li := p.funcBy[lit]; li != nil && callsOutput(li) {
+					fbLit = li
+				}
+			}
+			return true
+		})
+	}
+	if makeSpace == nil || fbLit == nil {
 		r.bad("C10.M4", flush.Name, p.Pos(flush.Node), "flush helpers", "flush has no reserve helper (one parameter) and drain helper (no parameter) that call the output callback", "")
 		return
 	}
@@ -624,17 +639,18 @@ func checkSessionAccounting(p *Prog, r *Report) {
 		type res struct {
 			val  *Term
 			aead bool
+			over bool // the path passed the test mtuLimit < mtu (explicit clamp)
 		}
 		var results []res
-		var walk func(pt Point, val *Term, aead bool, depth int)
-		walk = func(pt Point, val *Term, aead bool, depth int) {
+		var walk func(pt Point, val *Term, aead bool, over bool, depth int)
+		walk = func(pt Point, val *Term, aead bool, over bool, depth int) {
 			if depth > 30 {
 				return
 			}
 			b := pt.B
 			for i := pt.I; i < len(b.Nodes); i++ {
 				if (Point{b, i}) == target {
-					results = append(results, res{val, aead})
+					results = append(results, res{val, aead, over})
 					return
 				}
 				n := b.Nodes[i]
@@ -666,6 +682,10 @@ func checkSessionAccounting(p *Prog, r *Report) {
 					continue
 				}
 				a2 := aead
+				// the true edge of a type test for *aeadCrypt (comma-ok assertion in the if's init, or a type switch arm)
+				if ct != nil && ct.Op == "typeis" && ct.Str == "*aeadCrypt" && si == 0 {
+					a2 = true
+				}
 				// `if aead, ok := s.block.(*aeadCrypt); ok` : the true edge is the AEAD path
 				if ct != nil && ct.Op == "var" && si == 0 {
 					if v, ok := ct.Obj.(*types.Var); ok {
@@ -678,10 +698,22 @@ func checkSessionAccounting(p *Prog, r *Report) {
 						}
 					}
 				}
-				walk(Point{sblk, 0}, val, a2, depth+1)
+				v2, o2 := val, over
+				// explicit clamp: if mtu > mtuLimit { mtu = mtuLimit }
+				if ct != nil {
+					cs := normTerm(ct.Subst(map[types.Object]*Term{argVar: val}))
+					if cs.Key() == lt(tConst(mtuLimit), val).Key() {
+						if si == 0 {
+							o2 = true
+						} else {
+							v2 = normTerm(mk("min", tConst(mtuLimit), val)) // val <= mtuLimit here, so val == min(mtuLimit, val)
+						}
+					}
+				}
+				walk(Point{sblk, 0}, v2, a2, o2, depth+1)
 			}
 		}
-		walk(Point{c.Entry(), 0}, tVar(param), false, 0)
+		walk(Point{c.Entry(), 0}, tVar(param), false, false, 0)
 		if len(results) == 0 {
 			r.bad("C10.M6", fi.Name, p.Pos(s.Call), "value handed to KCP.SetMtu", "no path reaches the call", "")
 			continue
@@ -704,6 +736,10 @@ func checkSessionAccounting(p *Prog, r *Report) {
 			l := Lin(rs.val)
 			minKey := normTerm(mk("min", tConst(mtuLimit), tVar(param))).Key()
 			okV := l.Coef[minKey] == 1 && l.Coef[hdr.Key()] == -1 && l.C == 0
+			if !okV && rs.over && l.Coef[minKey] == 0 && l.Coef[hdr.Key()] == -1 && l.C == mtuLimit {
+				// on the path where mtu > mtuLimit was seen the value is the limit itself: min(mtuLimit, mtu) there
+				okV = true
+			}
 			nOther := 0
 			ovh := false
 			for k, cf := range l.Coef {
@@ -732,7 +768,23 @@ func checkSessionAccounting(p *Prog, r *Report) {
 		conds := cc.DominatingConds(pt)
 		ck := ""
 		for _, ct := range conds {
-			ck += pretty(ct.Key()) + ";"
+			for _, cj := range Conjuncts(ct) {
+				// `block == nil` on the cipher interface is the no-cipher arm of the type switch
+				if (cj.Op == "==" || cj.Op == "!=") && len(cj.Args) == 2 {
+					for i := 0; i < 2; i++ {
+						if cj.Args[i].Op == "nil" && cj.Args[1-i].Op == "fld" && cj.Args[1-i].Obj == p.Field("UDPSession", "block") {
+							ti := &Term{Op: "typeis", Str: "nil", Args: []*Term{cj.Args[1-i]}}
+							if cj.Op == "!=" {
+								cj = Negate(ti)
+							} else {
+								cj = ti
+							}
+							break
+						}
+					}
+				}
+				ck += pretty(cj.Key()) + ";"
+			}
 		}
 		construct := "store(UDPSession.headerSize) " + st.Tok.String() + " " + exprString(st.Rhs)
 		t := p.Term(st.Rhs)
